@@ -1,6 +1,8 @@
 package sets
 
 import (
+	"strings"
+
 	vl "github.com/emirpasic/gods/v2/zzvlib"
 	v "github.com/emirpasic/gods/v2/zzvsup"
 )
@@ -25,7 +27,7 @@ func vHas(seq []int, x int) bool {
 
 // VSetStep: one variadic operation on a set whose members are exactly pre (pairwise distinct; in insertion order
 // when ordered). Checks C04 (membership, size, each member once) and, for ordered sets, C09 (insertion order).
-func VSetStep(s Set[int], pre []int, ordered bool, inv func()) {
+func VSetStep(s Set[int], pre []int, ordered bool, name string, inv func()) {
 	op := v.CfgOr("op", -1)
 	if op < 0 {
 		op = v.Split(v.IntIn("op", 0, VOpCount-1), 0, VOpCount-1)
@@ -65,10 +67,16 @@ func VSetStep(s Set[int], pre []int, ordered bool, inv func()) {
 		want = []int{}
 	case VOpObservers:
 	case VOpString:
-		_ = s.String()
+		v.BeginOp(true, s)
+		str := s.String()
+		v.EndOp()
+		v.Assert(strings.HasPrefix(str, name), "C15:string-begins-with-container-name")
 	}
 	inv()
+	v.BeginOp(true, s)
 	got := s.Values()
+	_, _ = s.Size(), s.Empty()
+	v.EndOp()
 	v.Assert(len(got) == len(want), "C04:values-length")
 	vl.Distinct(got, "C04:member-listed-twice")
 	if len(got) == len(want) {
